@@ -1,5 +1,6 @@
 import Bt.Algos.Program
 import Bt.Algos.ProgramX
+import Bt.Algos.ProgramS
 import Bt.Algos.Sched
 import Bt.Driver.Engine
 /- `wholerun`: a complete (possibly nested) `Backtest.run()` of a program tree, executed by the model from the real
@@ -123,46 +124,63 @@ def pSelStep : P (SelStep Float) := do
     pure (.momentum win n asc aon)
   | t => throw s!"unknown selection step {t}"
 
-partial def pGTree (cfg : Cfg Float) (idx : List Cal.Stamp) : P (GTree Float) := do
-  let tag ← next
+/-- a post-processing step: `C s` ScaleWeights, `W l` LimitWeights, `D order glob? per` LimitDeltas, `O n` RebalanceOverTime (last) -/
+def pWStep : P (WStep Float) := do
+  match (← next) with
+  | "C" => do let s ← float; pure (.scale s)
+  | "W" => do let l ← float; pure (.limitW l)
+  | "D" => do
+    let order ← list nat
+    let glob ← opt float
+    let per ← list (do let i ← nat; let x ← float; pure (i, x))
+    pure (.limitD order glob per)
+  | "O" => do let n ← float; pure (.overTime n)
+  | t => throw s!"unknown post step {t}"
+
+/-- the extended stack after its tag: flow, gate, universe, selection steps, weigher, post steps, cash -/
+def pProgX (idx : List Cal.Stamp) : P (Option Float × ProgX Float) := do
+  let flow ← opt float
+  let gate ← pGate idx
+  let ucols ← list nat
+  let sels ← list pSelStep
+  let wgh ← pWgh
+  let post ← list pWStep
+  let cash ← opt float
+  pure (flow, { gate, ucols, sels, wgh, post, cash })
+
+/-- one strategy's stack (everything of a node up to its children), the tag already read:
+    `F` fixed-income, `T` WeighTarget, otherwise (`X`) the extended stack -/
+def pNodeFn (cfg : Cfg Float) (idx : List Cal.Stamp) (tag : String) : P (List Nat → RunFn Float) := do
   if tag == "F" then
     -- fixed-income node: gate, specified weights, notional series
     let k ← pPeriodKind
     let f1 ← bool; let f2 ← bool; let f3 ← bool
     let ws ← list (do let i ← nat; let x ← float; pure (i, x))
     let notional ← list (opt float)
-    let kids ← list (do
-      match (← next) with
-      | "N" => pure none
-      | _ => some <$> pGTree cfg idx)
     let p : ProgFI Float := { gate := gateOf k ⟨f1, f2, f3⟩ idx, ws, notional }
-    return (.node (progRunFI cfg p) kids)
+    return progRunFI cfg p
   if tag == "T" then
     -- WeighTarget node: gate, per-row target weights
     let flow ← opt float
     let gate ← pGate idx
     let rows ← list (opt (list (do let i ← nat; let x ← float; pure (i, x))))
-    let kids ← list (do
-      match (← next) with
-      | "N" => pure none
-      | _ => some <$> pGTree cfg idx)
     let p : ProgT Float := { gate, rows }
     match flow with
-    | none => return (.node (progRunT cfg p) kids)
-    | some a => return (.node (withFlow a (progRunT cfg p)) kids)
-  let flow ← opt float
-  let gate ← pGate idx
-  let ucols ← list nat
-  let sels ← list pSelStep
-  let wgh ← pWgh
+    | none => return progRunT cfg p
+    | some a => return withFlow a (progRunT cfg p)
+  let (flow, p) ← pProgX idx
+  match flow with
+  | none => pure (progRunX cfg p)
+  | some a => pure (withFlow a (progRunX cfg p))
+
+partial def pGTree (cfg : Cfg Float) (idx : List Cal.Stamp) : P (GTree Float) := do
+  let tag ← next
+  let f ← pNodeFn cfg idx tag
   let kids ← list (do
     match (← next) with
     | "N" => pure none
     | _ => some <$> pGTree cfg idx)
-  let p : ProgX Float := { gate, ucols, sels, wgh }
-  match flow with
-  | none => pure (.node (progRunX cfg p) kids)
-  | some a => pure (.node (withFlow a (progRunX cfg p)) kids)
+  pure (.node f kids)
 
 partial def pSimG (cfg : Cfg Float) (idx : List Cal.Stamp) : P (SimG Float) := do
   let w ← pWorld
@@ -186,6 +204,49 @@ def handleWholeRunX (line : String) : String :=
   | .ok (.error e) => "err " ++ e.toString
   | .ok (.ok s) =>
     let ws := simWorldsG s
+    "ok " ++ toString ws.length ++ " " ++ " ".intercalate (ws.flatMap prWorld)
+
+/-! ### programs with memory (`wholeruns`): tag `R n` = the extended stack ending in `run_always(RebalanceOverTime(n))` -/
+
+partial def pGTreeS (cfg : Cfg Float) (idx : List Cal.Stamp) : P (GTreeS Float) := do
+  let tag ← next
+  let f : List Nat → RunFnS Float ← (do
+    if tag == "R" then
+      let n ← float
+      let (flow, p) ← pProgX idx
+      match flow with
+      | none => pure (progRunXS cfg p n)
+      | some a => pure (withFlowS a (progRunXS cfg p n))
+    else
+      liftS <$> pNodeFn cfg idx tag)
+  let kids ← list (do
+    match (← next) with
+    | "N" => pure none
+    | _ => some <$> pGTreeS cfg idx)
+  pure (.node f none kids)
+
+partial def pSimGS (cfg : Cfg Float) (idx : List Cal.Stamp) : P (SimGS Float) := do
+  let w ← pWorld
+  let t ← pGTreeS cfg idx
+  let papers ← list (do let path ← list nat; let s ← pSimGS cfg idx; pure (path, s))
+  pure (.mk w t papers)
+
+partial def simWorldsGS : SimGS Float → List (World Float)
+  | .mk w _ papers => w :: papers.flatMap fun (_, s) => simWorldsGS s
+
+def handleWholeRunS (line : String) : String :=
+  let p : P (Except Err (SimGS Float)) := do
+    let cfg ← pCfg
+    let capital ← float
+    let dates ← list nat
+    let idx ← list pStamp
+    let s ← pSimGS cfg idx
+    pure (simRunGS cfg capital dates s)
+  match Tok.run p line with
+  | .error e => "bad " ++ e
+  | .ok (.error e) => "err " ++ e.toString
+  | .ok (.ok s) =>
+    let ws := simWorldsGS s
     "ok " ++ toString ws.length ++ " " ++ " ".intercalate (ws.flatMap prWorld)
 
 end Bt.Driver
